@@ -9,7 +9,7 @@ import json
 
 from ECAgent.Collectors import AgentCollector, Collector
 from ECAgent.Core import Agent, Component, Model, System
-from ECAgent.Environments import GridWorld, LineWorld, PositionComponent, SpaceWorld
+from ECAgent.Environments import DiscreteWorld, GridWorld, LineWorld, PositionComponent, SpaceWorld
 
 HOOK = {"fn": None}     # perturbation callback installed by the harness: fn(model, where, t)
 
@@ -68,6 +68,26 @@ class Move(System):
             m.trace.append(["pos", a.id, _pos(a)])
 
 
+class NeighbourWalk(System):
+    """The usual grid idiom: ask the world for the neighbouring cells, reorder the returned list in place with the model's
+    generator, step onto the first one."""
+
+    def execute(self):
+        m = self.model
+        env = m.environment
+        if not isinstance(env, DiscreteWorld):
+            return
+        for a in list(env):
+            cells = env.get_neighbours(a[PositionComponent], radius=m.cfg.get("radius", 1), ret_type=tuple,
+                                       mode=m.cfg.get("nmode", "moore"))
+            m.random.shuffle(cells)
+            if cells:
+                env.move_to(a, cells[0][0], cells[0][1])
+            ids = env.get_neighbours(a[PositionComponent], incl_center=True)
+            ids.reverse()                       # a caller may do what it likes with the list it was given
+            m.trace.append(["nwalk", a.id, [list(c) for c in cells[:4]], ids[:3], _pos(a)])
+
+
 class BirthDeath(System):
     def execute(self):
         m = self.model
@@ -112,7 +132,7 @@ class DigestCollector(Collector):
 
 
 SYSTEMS = {"transfer": (Transfer, 4), "shuffle": (ShuffleUpdate, 3), "move": (Move, 2), "birthdeath": (BirthDeath, 1),
-           "fpick": (FilteredPick, 0)}
+           "fpick": (FilteredPick, 0), "nwalk": (NeighbourWalk, 2)}
 
 
 class ChaosModel(Model):
@@ -195,4 +215,4 @@ def gen_cfg(rng, tier="quick"):
     return {"world": world, "w": rng.randint(2, 7), "h": rng.randint(2, 6), "pop": rng.randint(3, 12),
             "systems": names, "horizon": rng.randint(5, 30 if tier == "thorough" else 14),
             "ambient": [rng.choice([5, 3, 2, 1, 0, -1, -5]) for _ in range(rng.randint(0, 3))],
-            "collector": rng.random() < 0.8}
+            "collector": rng.random() < 0.8, "radius": rng.choice([1, 1, 2]), "nmode": rng.choice(["moore", "neumann"])}
